@@ -50,7 +50,8 @@ def revert_mutants(only=None, tier="quick"):
                 detected = []
                 for pid in k.get("detect_with") or k["properties"][:1]:
                     t0 = time.time()
-                    env = dict(os.environ, VERIF_REPO=wt, VERIF_SEED=os.environ.get("VERIF_SEED", "1"))
+                    env = dict(os.environ, VERIF_REPO=wt, VERIF_SEED=os.environ.get("VERIF_SEED", "1"),
+                               VERIF_EVIDENCE_DIR=os.path.join(base, "evidence"))
                     rc, out = sh([os.path.join(VERIF, "bin", "check"), pid, "--tier", tier], cwd=VERIF, env=env, timeout=5400)
                     detected.append({"check": pid, "exit": rc, "violation_lines": out.count("VIOLATION property="),
                                      "wall_s": round(time.time() - t0, 1),
